@@ -158,7 +158,7 @@ SPEC = dict(
         # a LIVE frame that is still the top frame: fails on the unchanged tree (see assumptions / report); thorough tier only
         # until the lead registers the finding
         dict(name='ScopedAsyncStackRoot_ensureFrameDeactivated_live_frame', harness='h_scoped_ensureFrameDeactivated_live',
-             enforce='ScopedAsyncStackRoot_ensureFrameDeactivated', tier='thorough'),
+             enforce='ScopedAsyncStackRoot_ensureFrameDeactivated'),
         dict(name='resumeCoroutineWithNewAsyncStackRoot', harness='h_resume_with_new_root', enforce='resumeCoroutineWithNewAsyncStackRoot'),
         # the stack-trace walk: unbounded index bound by loop contract over a one-frame window, global result bounded
         dict(name='getAsyncStackTraceFromInitialFrame_index_bound', harness='h_trace_lc', enforce='getAsyncStackTraceFromInitialFrame_lc',
@@ -183,7 +183,7 @@ SPEC = dict(
         'call-site preconditions (caller obligations of template code): the callee frame handed to pushAsyncStackFrameCallerCallee is a different, not yet attached frame (stackRoot == nullptr); the parent of a frame handed to popAsyncStackFrameCallee is null or a live, currently detached frame; a frame handed to activate is detached and the root has no top frame',
         'thread-locality: the current-root holder is thread_local and a thread writes topFrame only of its own current root (checked as the guarantee at every atomic store); other threads / profilers / debuggers only read (header comment on topFrame): vf_interfere is empty',
         'the link fields are private; the closed-world scan covers the three files that contain every friend (async_stack.hpp, async_stack-inl.hpp, source/async_stack.cpp)',
-        'ScopedAsyncStackRoot::ensureFrameDeactivated: a frame that is still the top frame when it is called is never accessed (it may be dead); if such a frame is in fact alive (inject_async_stack.hpp _op_wrapper::start() for every operation that is still pending when start() returns) its stackRoot link is left pointing at the root that is about to be destroyed: unit ScopedAsyncStackRoot_ensureFrameDeactivated_live_frame (thorough tier) states the C20 obligation and FAILS; native reproducer probes/native/async_stack_op_frame_left_attached.cpp',
+        'ScopedAsyncStackRoot::ensureFrameDeactivated: a frame that is still the top frame when it is called is never accessed (it may be dead); if such a frame is in fact alive (inject_async_stack.hpp _op_wrapper::start() for every operation that is still pending when start() returns) its stackRoot link is left pointing at the root that is about to be destroyed: unit ScopedAsyncStackRoot_ensureFrameDeactivated_live_frame states the C20 obligation and FAILS (recorded as known finding C20-op-wrapper-frame-left-attached); native reproducer probes/native/async_stack_op_frame_left_attached.cpp',
         'the coroutine resumed by resumeCoroutineWithNewAsyncStackRoot deactivates its frame before it suspends or finishes (stub EV_resume; await_transform / final_suspend code, not reached)',
         'getAsyncStackTraceFromInitialFrame: the parentFrame chain is a null-terminated list of live frames; the index bound is proved for chains of any length over a one-frame window (the successor of a chain member is a chain member or null: M2 meta-argument), the exact result (first min(len,max) return addresses, in order, nothing else written) only for chains of <= 6 frames (bounded)',
         'the UNIFEX_ASYNC_STACK_ROOT_USE_VECTOR registry of holders and the pthread TLS key (debugger support) are not modelled',
